@@ -71,8 +71,11 @@ pub fn gen_clients(r: &mut Rng, n: usize, with_invalid: bool, max_reqs: usize) -
                     } else {
                         Declared::Valid
                     };
+                    // C10 mode only: two clients may put the very same bytes (same declared hash)
+                    let shared_body = if with_invalid && r.below(4) == 0 { Some(r.below(2) as u32) } else { None };
+                    let size = if shared_body.is_some() { if size > 1000 { 300_000 } else { 64 } } else { size };
                     let stop = declared == Declared::ShortBodyThenClose;
-                    reqs.push(Req::Put { path, expected, size, declared });
+                    reqs.push(Req::Put { path, expected, size, declared, shared_body });
                     if stop {
                         break;
                     }
@@ -135,10 +138,10 @@ pub fn shrink_hub(sc: &HubSc) -> Vec<HubSc> {
     // shrink sizes, simplify
     for i in 0..sc.clients.len() {
         for j in 0..sc.clients[i].reqs.len() {
-            if let Req::Put { path, expected, size, declared } = &sc.clients[i].reqs[j] {
+            if let Req::Put { path, expected, size, declared, shared_body } = &sc.clients[i].reqs[j] {
                 if *size > 64 {
                     let mut s = sc.clone();
-                    s.clients[i].reqs[j] = Req::Put { path: path.clone(), expected: expected.clone(), size: 32, declared: declared.clone() };
+                    s.clients[i].reqs[j] = Req::Put { path: path.clone(), expected: expected.clone(), size: 32, declared: declared.clone(), shared_body: *shared_body };
                     out.push(s);
                 }
             }
